@@ -444,7 +444,8 @@ impl Gen {
 
     fn plain_line(&self, rng: &mut Rng) -> String {
         if self.simple {
-            return c03::gen_line(rng);
+            // (one line in twelve calls the real `goto` / `exit`: labels repeat across the files)
+            return if rng.chance(1, 12) { c03::gen_real_line(rng) } else { c03::gen_line(rng) };
         }
         match rng.below(24) {
             0 | 1 => {
@@ -505,6 +506,12 @@ impl Gen {
                 };
                 if let Some(to) = target {
                     let a = if rng.chance(1, 4) { abs_ref(rng, &to, &mut self.tags) } else { rel_ref(rng, &path, &to, &mut self.tags) };
+                    // one reference in fourteen (not in simple trees) names the file WITHOUT its `.ds`
+                    // extension: that name does not exist — the sibling with the extension is no substitute
+                    let a = if !self.simple && a.ends_with(".ds") && rng.chance(1, 14) {
+                        tag(&mut self.tags, "missing");
+                        a[..a.len() - 3].to_string()
+                    } else { a };
                     args.push(quote_arg(rng, &a));
                 }
             }
@@ -645,7 +652,7 @@ fn behaviour_agrees(r: &Req, file_run: &str) -> bool {
     }
     // A: directive lines become blank lines (same absolute indexes)
     let text_a: String = entries.iter().map(|e| if e.directive.is_some() { "\n".to_string() } else { format!("{}\n", e.text) }).collect();
-    let run_a = run_scripted(&text_a, None, &r.names, &r.queue.join(","), None, &r.vars).trim_end().to_string();
+    let run_a = run_scripted_with(&text_a, None, &r.names, &r.queue.join(","), None, &r.vars, &["exit", "goto"]).trim_end().to_string();
     let ok_a = if run_a.starts_with("fail ") && file_run.starts_with("fail ") {
         let a: Vec<&str> = run_a.splitn(4, ' ').collect();
         let f: Vec<&str> = file_run.splitn(4, ' ').collect();
@@ -659,7 +666,7 @@ fn behaviour_agrees(r: &Req, file_run: &str) -> bool {
     // B: directive lines dropped (pure pasting): same calls, arguments, variables, outcome
     let kept: Vec<&Entry> = entries.iter().filter(|e| e.directive.is_none()).collect();
     let text_b: String = kept.iter().map(|e| format!("{}\n", e.text)).collect();
-    let run_b = run_scripted(&text_b, None, &r.names, &r.queue.join(","), None, &r.vars).trim_end().to_string();
+    let run_b = run_scripted_with(&text_b, None, &r.names, &r.queue.join(","), None, &r.vars, &["exit", "goto"]).trim_end().to_string();
     let ok_b = if run_b.starts_with("fail ") && file_run.starts_with("fail ") {
         let b: Vec<&str> = run_b.splitn(4, ' ').collect();
         let f: Vec<&str> = file_run.splitn(4, ' ').collect();
@@ -695,7 +702,7 @@ impl Prop for C14Prop {
         }
     }
     fn fixed_cases(&self, _tier: Tier) -> Vec<Case> {
-        fixed_trees()
+        let mut out: Vec<Case> = fixed_trees()
             .into_iter()
             .map(|(t, name)| Case {
                 req: mk_inc("/R/main.ds", &t),
@@ -703,7 +710,22 @@ impl Prop for C14Prop {
                 nontrivial: t.len() >= 3,
                 tags: vec!["fixed"],
             })
-            .collect()
+            .collect();
+        // behaviour: the SAME label in an included file and in its includer, a real `goto` written in
+        // the file whose definition is not the last one (labels belong to the whole script, not to a file);
+        // the label only in the includer; the same with the roles swapped
+        let names: Vec<String> = ["c0", "c1", "c2", "c3"].iter().map(|s| s.to_string()).collect();
+        let trees: Vec<Tree> = vec![
+            vec![("/R/main.ds".into(), "!include_files lib.ds\nc1 main\n:finish\nc2 end\n".into()), ("/R/lib.ds".into(), "c0 lib\ngoto :finish\n:finish\nc3 lib-end\n".into())],
+            vec![("/R/main.ds".into(), "c0 m\ngoto :finish\n!include_files lib.ds\n:finish\nc2 end\n".into()), ("/R/lib.ds".into(), ":finish\nc3 lib\n".into())],
+            vec![("/R/main.ds".into(), ":finish\nc1 first\n!include_files lib.ds\nc2 end\n".into()), ("/R/lib.ds".into(), "c0 lib\n:finish\nc3 x\ngoto :finish\n".into())],
+            vec![("/R/main.ds".into(), "!include_files a.ds b.ds\nc2 end\n".into()), ("/R/a.ds".into(), ":dup\nc0 a\n".into()), ("/R/b.ds".into(), "c1 b\ngoto :dup\n:dup\nc3 b2\n".into())],
+        ];
+        for t in trees {
+            let q: Vec<String> = (0..6).map(|_| "C/-".to_string()).collect();
+            out.push(Case { req: mk_incrun("/R/main.ds", &t, &names, &q, &[], 400), in_domain: true, nontrivial: true, tags: vec!["fixed", "behaviour", "label-in-two-files"] });
+        }
+        out
     }
     fn generate(&self, rng: &mut Rng, _tier: Tier) -> Case {
         let beh = rng.chance(1, 4);
@@ -759,7 +781,12 @@ impl Prop for C14Prop {
         };
         let real_root = tt.real(&r.root);
         if r.op == "incrun" {
-            let out = run_scripted("", Some(&real_root), &r.names, &r.queue.join(","), None, &r.vars);
+            // (the real `exit` / `goto` of the SDK are registered next to the scripted commands: a
+            // `goto :label` written in an included file jumps by the label table of the WHOLE script)
+            if _model.starts_with("fuel") {
+                return _model.to_string();
+            }
+            let out = run_scripted_with("", Some(&real_root), &r.names, &r.queue.join(","), None, &r.vars, &["exit", "goto"]);
             tt.unroot(&out)
         } else {
             let res = duckscript::parser::parse_file(&real_root);
@@ -772,6 +799,10 @@ impl Prop for C14Prop {
             return Some(false);
         }
         if r.op == "incrun" {
+            // (a program the total model does not see end — a loop of real `goto`s — is not started)
+            if imp.starts_with("fuel") {
+                return None;
+            }
             return Some(behaviour_agrees(&r, imp));
         }
         // a backslash argument is "absolute" for the code and a relative name for the OS:
